@@ -17,8 +17,11 @@ import (
 	"flag"
 	"fmt"
 	"os"
+	"runtime"
 	"strconv"
 	"strings"
+	"sync"
+	"sync/atomic"
 
 	"github.com/sasha-s/go-deadlock"
 
@@ -42,6 +45,8 @@ func main() {
 		err = cmdRun(os.Args[2:])
 	case "replay":
 		err = cmdReplay(os.Args[2:])
+	case "concurrent":
+		err = cmdConcurrent(os.Args[2:])
 	default:
 		err = fmt.Errorf("unknown sub-command %s", os.Args[1])
 	}
@@ -378,6 +383,44 @@ func cmdRun(args []string) error {
 			fmt.Fprintln(w, runCase("W", init, ops))
 		}
 	}
+	return nil
+}
+
+// concurrent -limit N -workers G -rounds M: G goroutines share ONE real window with prefetchCount N and each
+// repeats { if Inc(1,1) { read the window; Dec(1,1) } }.  Between a successful Inc and its Dec the charge is
+// outstanding, so the count read there must never exceed N.  Prints the largest count seen (search-only probe of
+// the atomicity the model assumes; a sequential run cannot see a check-then-charge Inc).
+func cmdConcurrent(args []string) error {
+	fs := flag.NewFlagSet("concurrent", flag.ExitOnError)
+	limit := fs.Int("limit", 1, "prefetchCount of the shared window")
+	workers := fs.Int("workers", 8, "goroutines")
+	rounds := fs.Int("rounds", 20000, "attempts per goroutine")
+	fs.Parse(args)
+	q := qos.NewAmqpQos(uint16(*limit), 0)
+	var wg sync.WaitGroup
+	var maxSeen, admitted uint64
+	for g := 0; g < *workers; g++ {
+		wg.Add(1)
+		go func() {
+			defer wg.Done()
+			for i := 0; i < *rounds; i++ {
+				if q.Inc(1, 1) {
+					atomic.AddUint64(&admitted, 1)
+					c := q.VerifState()[2]
+					for {
+						m := atomic.LoadUint64(&maxSeen)
+						if c <= m || atomic.CompareAndSwapUint64(&maxSeen, m, c) {
+							break
+						}
+					}
+					runtime.Gosched()
+					q.Dec(1, 1)
+				}
+			}
+		}()
+	}
+	wg.Wait()
+	fmt.Printf("concurrent limit=%d workers=%d rounds=%d admitted=%d max_count_seen=%d final=%s\n", *limit, *workers, *rounds, admitted, maxSeen, wstate(q))
 	return nil
 }
 
